@@ -56,13 +56,14 @@ def window_selection(chk, prog, rule):
     flow = flow_of(rw)
     where = f"{rw.module}:{rw.qualname}"
     rets = [r for r in walk_no_nested(rw.node) if isinstance(r, ast.Return)]
-    if len(rets) != 1 or not isinstance(rets[0].value, ast.Name):
+    if not rets or not all(isinstance(r.value, ast.Name) for r in rets):
         raise AnalysisError("read_weather_inputs: expected `return <name>`")
-    frame = rets[0].value.id
+    frame = rets[-1].value.id
     param = rw.params[1] if len(rw.params) > 1 else None
-    # every definition of the returned frame (transitively) is a Date-mask selection of the previous frame
-    seen, work = set(), [(rets[0].value, flow.stmt_node[id(rets[0])])]
+    # every definition of the returned frame (transitively, for every return) is a Date-mask selection of the previous frame
+    seen, work = set(), [(r.value, flow.stmt_node[id(r)]) for r in rets]
     nsel = 0
+    mask_texts = []
     while work:
         name_node, nid = work.pop()
         for d in flow.defs_reaching(name_node.id if isinstance(name_node, ast.Name) else name_node, nid):
@@ -76,6 +77,13 @@ def window_selection(chk, prog, rule):
             ok = False
             if isinstance(st, ast.Assign) and isinstance(st.value, ast.Subscript) and isinstance(st.value.value, ast.Name):
                 sl = st.value.slice
+                if isinstance(sl, ast.Name):
+                    # a mask kept in a local: in_period = (F.Date >= a) & (F.Date <= b); F = F[in_period]
+                    mds = [flow.cfg.nodes[k].ast for k in flow.defs_reaching(sl.id, d) if k != ENTRY]
+                    if len(mds) == 1 and isinstance(mds[0], ast.Assign):
+                        sl = mds[0].value
+                        construct = construct + "  with  " + norm(mds[0])
+                        mask_texts.append(norm(mds[0]))
                 atoms = [sl] if isinstance(sl, ast.Compare) else (
                     [sl.left, sl.right] if isinstance(sl, ast.BinOp) and isinstance(sl.op, ast.BitAnd) else [])
                 ok = bool(atoms) and all(isinstance(a, ast.Compare) and isinstance(a.left, ast.Attribute) and a.left.attr == "Date"
@@ -105,7 +113,7 @@ def window_selection(chk, prog, rule):
                               "column (index labels / row positions depend on how the table happens to be indexed)", loc=rw.loc(st))
     chk.floor(rule, nsel, 1, "Date-mask selections in read_weather_inputs")
     # both bounds are applied
-    txt = " ".join(norm(flow.cfg.nodes[d].ast) for d in seen if d != ENTRY)
+    txt = " ".join(norm(flow.cfg.nodes[d].ast) for d in seen if d != ENTRY) + " " + " ".join(mask_texts)
     if ">=" in txt and "<=" in txt:
         chk.ok(rule, where, "window bounds", "both the start and the end date bound the selection")
     else:
@@ -163,9 +171,12 @@ def day_binding(chk, prog, rule):
     rw = prog.find_func("read_weather_inputs")
     chk.fn(rw.key)
     where = f"{rw.module}:{rw.qualname}"
-    rets = [r for r in walk_no_nested(rw.node) if isinstance(r, ast.Return)]
-    if len(rets) != 1 or not isinstance(rets[0].value, ast.Name):
+    all_rets = [r for r in walk_no_nested(rw.node) if isinstance(r, ast.Return)]
+    if not all_rets or not all(isinstance(r.value, ast.Name) for r in all_rets):
         raise AnalysisError("read_weather_inputs: expected `return <name>`")
+    rets = [r for r in all_rets if r in rw.node.body]          # the top-level return the guard is matched against
+    if len(rets) != 1:
+        raise AnalysisError("read_weather_inputs: expected one top-level `return <name>`")
     frame = rets[0].value.id
     # names that carry the Date column of the returned frame (one level of locals)
     dates = set()
@@ -192,6 +203,15 @@ def day_binding(chk, prog, rule):
                       "duplicated or out-of-order record shifts every later day onto another day's weather", loc=rw.loc(rets[0]))
         return
     i, g = guards[-1]
+    # no other return leaves the function before the guard (an early "nothing to do" exit hands the frame back unchecked and unordered)
+    for r in all_rets:
+        if r is rets[0]:
+            continue
+        top = next((j for j, st in enumerate(rw.node.body) if any(x is r for x in ast.walk(st))), None)
+        if top is None or top <= i:
+            chk.violation(rule, where, f"early `return {norm(r.value)}`", "this return leaves read_weather_inputs before the frame's dates were compared with the simulation "
+                          "days (and before the rows were put in chronological order): a table that fits the window exactly but is not in date order is used row by row",
+                          loc=rw.loc(r))
     # nothing after the guard changes the row set / order of the frame or of the compared dates
     later = [s for s in body[i + 1:] for a in ast.walk(s) if isinstance(a, ast.Assign) and any(isinstance(t, ast.Name) and t.id == frame for t in a.targets)]
     # and the dates compared are taken from the frame after its last re-definition
